@@ -451,6 +451,13 @@ def detector_roundtrip(run, transform, p, desc, r, n):
     dist = (normal @ (np.array([[p["distance"]], [0], [0]]) - go)) / nd
     ok = (dist > 0) & (np.abs(nd) > 0.2)
     pp = {k: v for k, v in p.items() if k not in ("omegasign", "wavelength")}
+    if desc.get("index", 0) % 2:
+        # the package convention: the whole parameter dictionary is passed on (omegasign included) together with an
+        # omega that already carries the sign; both directions must treat that dictionary the same way
+        pp["omegasign"] = p.get("omegasign", 1.0)
+        run.count("detector_roundtrips_with_omegasign_in_the_dictionary")
+        if pp["omegasign"] < 0:
+            run.count("detector_roundtrips_with_omegasign_-1_in_the_dictionary")
     fc, sc = transform.compute_xyz_from_tth_eta(tth, eta, om, **pp)
     tth2, eta2 = transform.compute_tth_eta(np.array((sc, fc)), omega=om, **pp)
     dperp = dist * np.sin(rt)
